@@ -163,6 +163,28 @@ func runC12(c *engine.Ctx) {
 				}}, "insert only when absent")
 			}
 		})
+		// the same claim written against a sync.Map: LoadOrStore(name, …) is the atomic "insert only when absent", and
+		// its loaded result is the "already in use" verdict
+		if pxys != nil && engine.IsNamed(pxys.Type(), "sync", "Map") {
+			var los *ssa.Call
+			engine.ForEachInstr(af, func(in ssa.Instruction) {
+				if call, ok := in.(*ssa.Call); ok {
+					if o := engine.CalleeObj(call); o != nil && o.Name() == "LoadOrStore" && o.Pkg() != nil && o.Pkg().Path() == "sync" {
+						if a := engine.CallArgs(call); len(a) >= 2 && isParam("name")(engine.Unwrap(a[1])) {
+							los = call
+						}
+					}
+				}
+			})
+			if los != nil {
+				n++
+				c.Hold("server/proxy.Manager.Add>insert", los.Pos(), 1, nil, "the name is claimed with sync.Map.LoadOrStore")
+				okLookup = func(v ssa.Value) bool {
+					ex, ok := v.(*ssa.Extract)
+					return ok && ex.Index == 1 && ex.Tuple == ssa.Value(los)
+				}
+			}
+		}
 		n++
 		c.AllPaths("server/proxy.Manager.Add>verdict", engine.PathCheck{Fn: af, Sink: engine.IsReturn, Pred: func(st *engine.PathState) string {
 			v, k := st.Truth(okLookup)
@@ -338,6 +360,9 @@ func runC12(c *engine.Ctx) {
 	// identical registration meets a stale route ----
 	checkQueuedClosureCaptures(c, "R13")
 
+	// ---- R14 ----
+	checkDoneOnlyByReadLoop(c, "R14")
+
 	// ---- R10 the name a proxy is registered under is the name it owns ----
 	c.Rule("R10", "ProxyBaseConfig.UnmarshalFromMsg copies NewProxy.ProxyName into Name verbatim (no trimming or case change): RegisterProxy registers the name under the message's spelling and every removal uses the proxy's own Name")
 	if f := fn(c, "pkg/config/v1.ProxyBaseConfig.UnmarshalFromMsg"); f != nil {
@@ -394,4 +419,87 @@ func checkDelIfSame(c *engine.Ctx, rule string) {
 		c.Floor(n, 1)
 	}
 
+}
+
+// checkDoneOnlyByReadLoop (C12.R14, shared with C14.R13): Dispatcher.Done() is the session's "nothing is being handled
+// any more" signal — Control.worker tears the session's proxies down when it fires, and a handler that is still running
+// would then register a proxy on a dead session. The read loop runs the handlers itself, so the signal is sound exactly
+// when doneCh is closed by the read loop only: by readLoop itself or by a helper nothing else calls.
+func checkDoneOnlyByReadLoop(c *engine.Ctx, rule string) {
+	c.Rule(rule, "Dispatcher.doneCh is closed only on behalf of the read loop: every function that closes it is readLoop, one of its closures, or a helper whose (transitive) static callers are all within readLoop — in particular not the send loop, which runs beside the handlers")
+	p := c.P
+	rl := fn(c, "pkg/msg.Dispatcher.readLoop")
+	doneF := field(c, "pkg/msg", "Dispatcher", "doneCh")
+	if rl == nil || doneF == nil {
+		return
+	}
+	callers := map[*ssa.Function][]*ssa.Function{}
+	for _, f := range p.RepoFuncs() {
+		f := f
+		engine.ForEachInstr(f, func(in ssa.Instruction) {
+			if call, ok := in.(ssa.CallInstruction); ok {
+				if cf := engine.CalleeFn(call); cf != nil && cf.Blocks != nil {
+					callers[cf] = append(callers[cf], f)
+				}
+			}
+		})
+	}
+	root := func(f *ssa.Function) *ssa.Function {
+		for f.Parent() != nil {
+			f = f.Parent()
+		}
+		return f
+	}
+	n := 0
+	for _, f := range p.RepoFuncs() {
+		f := f
+		engine.ForEachInstr(f, func(in ssa.Instruction) {
+			cc, ok := in.(ssa.CallInstruction)
+			if !ok {
+				return
+			}
+			b, ok := cc.Common().Value.(*ssa.Builtin)
+			if !ok || b.Name() != "close" {
+				return
+			}
+			if lf, _ := engine.LoadedField(cc.Common().Args[0]); lf != doneF {
+				return
+			}
+			n++
+			// who can get here?
+			bad := ""
+			seen := map[*ssa.Function]bool{}
+			var walk func(g *ssa.Function, d int, via string)
+			walk = func(g *ssa.Function, d int, via string) {
+				g = root(g)
+				if g == rl || seen[g] || d > 6 || bad != "" {
+					return
+				}
+				seen[g] = true
+				cs := callers[g]
+				if len(cs) == 0 {
+					bad = p.FuncName(g) + " (no static caller: an entry point of its own)"
+					return
+				}
+				for _, cf := range cs {
+					if root(cf) == rl {
+						continue
+					}
+					v := via
+					if v == "" {
+						v = p.FuncName(cf)
+					}
+					if o := root(cf).Object(); o != nil && o.Exported() || len(callers[root(cf)]) == 0 {
+						bad = v
+						return
+					}
+					walk(cf, d+1, v)
+				}
+			}
+			walk(f, 0, "")
+			c.Check(bad == "", p.FuncName(f)+">close-doneCh", in.Pos(), len(seen)+1, nil,
+				"doneCh is closed here only when the read loop ends (also reachable from %s: Done() would fire while a message handler of the read loop may still be running)", bad)
+		})
+	}
+	c.Floor(n, 1)
 }
